@@ -3164,7 +3164,7 @@ def roman_numeral(lhs, ctx):
                 result += ints[i]
                 lhs = lhs[len(n) :]
         return result
-    elif vy_type(lhs) is list:
+    else:
         return vectorise(roman_numeral, lhs, ctx=ctx)
 
 
